@@ -28,7 +28,8 @@ EXPLANATION = (
     'and the readers index moveCntKeys with min(clock, 100) against an array of 101 entries; (4) readFEN, stringToMove, '
     'uciStringToMove and the UCI command handler can only let ChessError-family exceptions escape, and the UCI loop catches '
     'ChessParseError; (5) all pawn-direction square offsets (+/-8, +/-16) in the position, text and UCI code are colour-decided and '
-    'occur in mirrored white/black pairs.')
+    'occur in mirrored white/black pairs.'
+    ' (6) PGN scanner look-ahead: every character read is appended, matched as a delimiter, skipped as white space or handed back before the next read / the return.')
 UNDECIDED = ('uniqueness of short move forms, round-trip equality of values, robustness against every byte string (needs execution); '
              'PGN tree round trip beyond the scanner look-ahead discipline of clause 6.')
 ASSUMPTIONS = ['char is an 8-bit type; the piece enumerators are those of Piece::Type']
